@@ -1,7 +1,7 @@
 #!/usr/bin/env python3
 """Regression run over the seeded changes: every kept change must make its property's quick check report a VIOLATION,
 and the benign refactorings (seeded/benign/*.diff, applied together) must leave every check green.
-Usage: python3 -m selftest.run_seeds [seeds|benign|all]     (applies patches to /repo and undoes them)"""
+Usage: python3 -m selftest.run_seeds [seeds [k/n]|benign|all]     (applies patches to /repo - or $VERIF_REPO - and undoes them)"""
 import json
 import os
 import subprocess
@@ -10,8 +10,11 @@ import sys
 V = os.path.dirname(os.path.dirname(os.path.abspath(__file__)))
 
 
+REPO = os.environ.get("VERIF_REPO", "/repo")
+
+
 def git(*a):
-    return subprocess.run(["git", "-C", "/repo"] + list(a), stdout=subprocess.PIPE, stderr=subprocess.STDOUT, text=True)
+    return subprocess.run(["git", "-C", REPO] + list(a), stdout=subprocess.PIPE, stderr=subprocess.STDOUT, text=True)
 
 
 def clean():
@@ -25,9 +28,11 @@ def check(p, tier="quick"):
     return r.returncode, (lines[0] if lines else r.stdout[-200:])
 
 
-def seeds():
+def seeds(shard=0, of=1):
     bad = 0
-    for sid in sorted(os.listdir(os.path.join(V, "seeded"))):
+    for k, sid in enumerate(sorted(os.listdir(os.path.join(V, "seeded")))):
+        if k % of != shard:
+            continue
         d = os.path.join(V, "seeded", sid)
         if not os.path.exists(os.path.join(d, "meta.json")):
             continue
@@ -50,7 +55,7 @@ def seeds():
 def benign():
     clean()
     bd = os.path.join(V, "seeded", "benign")
-    for f in sorted(os.listdir(bd)):
+    for f in sorted(x for x in os.listdir(bd) if x.endswith(".diff")):
         if git("apply", os.path.join(bd, f)).returncode != 0:
             git("checkout", "--", ".")
             raise SystemExit("benign patch %s does not apply" % f)
@@ -72,6 +77,7 @@ if __name__ == "__main__":
     if what in ("benign", "all"):
         n += benign()
     if what in ("seeds", "all"):
-        n += seeds()
+        sh = sys.argv[2].split("/") if len(sys.argv) > 2 else ["0", "1"]      # e.g. 1/3: every third seed, starting at the second
+        n += seeds(int(sh[0]), int(sh[1]))
     print("run_seeds: %s" % ("all as expected" if n == 0 else "%d unexpected results" % n))
     sys.exit(1 if n else 0)
